@@ -3,9 +3,10 @@
 P=$1; ID=$2; TIER=${3:-quick}
 cd /repo && git diff --quiet || { echo "/repo dirty"; exit 9; }
 git -C /repo apply $P || exit 3
-cp /verif/evidence/$ID.json /tmp/evidence_$ID.bak 2>/dev/null
-cd /verif && ./check $ID --tier $TIER > /tmp/seedrun_$ID.out 2>&1; RC=$?
+cp ${VERIF_DIR:-/verif}/evidence/$ID.json /tmp/evidence_$ID.bak 2>/dev/null
+V=${VERIF_DIR:-/verif}
+cd $V && ./check $ID --tier $TIER > /tmp/seedrun_$ID.out 2>&1; RC=$?
 git -C /repo checkout -- . 
-cp /tmp/evidence_$ID.bak /verif/evidence/$ID.json 2>/dev/null
+cp /tmp/evidence_$ID.bak ${VERIF_DIR:-/verif}/evidence/$ID.json 2>/dev/null
 grep -E "^VIOLATION|^FAILED-OBL|^\[|^UNDECIDED|^KNOWN" /tmp/seedrun_$ID.out | head -20
 echo "exit=$RC"
